@@ -169,6 +169,27 @@ def check_resegment(ctx, case):
         q5.get_filter_function_derivative(omega)
     cmp(ctx, 'resegmentation', case, 'equal split, after a derivative request: control matrix',
         q5.get_control_matrix(omega), B)
+    # cutting the pulse in two and playing the pieces one after the other (with and without pulse-correlation
+    # data, on complete and incomplete bases) is the same pulse again
+    if n >= 2:
+        k = int(rng.integers(1, n))
+        whole = gens.build(desc)
+        for pcff in (False, True):
+            pieces = [gens.build(desc)[:k], gens.build(desc)[k:]]
+            if rng.random() < 0.5:
+                pieces[0].cache_control_matrix(omega)
+            joined = ff.concatenate(pieces, omega=omega, calc_pulse_correlation_FF=pcff)
+            cmp(ctx, 'resegmentation', case, f'cut at segment {k} and concatenated (pulse correlations: {pcff}): '
+                'control matrix', joined.get_control_matrix(omega), B)
+        C = gens.basis_array(desc)
+        if len(C) > 2:
+            sub = dict(desc)
+            sub['basis'] = ('custom', C[np.sort(rng.choice(len(C), len(C) - 1, replace=False))], None, 'Custom')
+            Bsub = gens.build(sub).get_control_matrix(omega)
+            joined = ff.concatenate([gens.build(sub)[:k], gens.build(sub)[k:]], omega=omega,
+                                    calc_pulse_correlation_FF=True)
+            cmp(ctx, 'resegmentation', case, f'cut at segment {k} and concatenated (incomplete basis, pulse '
+                'correlations): control matrix', joined.get_control_matrix(omega), Bsub)
     # operator order
     pc, pn = rng.permutation(len(desc['c_opers'])), rng.permutation(len(desc['n_opers']))
     d4 = dict(desc)
